@@ -390,44 +390,11 @@ func Run(sc *Scenario) *Result {
 	return res
 }
 
-type Fail struct{ Sig, Detail string }
-
-// Check evaluates the C07 / C12 oracles.
-func Check(res *Result) []Fail {
-	var fails []Fail
-	add := func(sig, format string, a ...interface{}) { fails = append(fails, Fail{sig, fmt.Sprintf(format, a...)}) }
-	sc := res.Sc
-	if res.NewErr != "" {
-		return nil
-	}
-	if res.Hang != "" {
-		add("C12:group-hang", "%s", res.Hang)
-		return fails
-	}
-	if res.Panic != "" {
-		add("C12:group-panic", "%s", res.Panic)
-	}
-	if len(res.LifePanic) > 0 {
-		add("C12:group-goroutine-panic", "recovered in one of sarama's goroutines: %s", strings.Join(res.LifePanic, " | "))
-	}
-	// merge handler events and coordinator requests into one sequence
-	type item struct {
-		seq int
-		ev  *HEvent
-		rq  *sarama.VerifSimGroupReq
-	}
-	var items []item
-	for i := range res.Events {
-		items = append(items, item{seq: res.Events[i].Seq, ev: &res.Events[i]})
-	}
-	for i := range res.Reqs {
-		items = append(items, item{seq: res.Reqs[i].Seq, rq: &res.Reqs[i]})
-	}
-	sort.Slice(items, func(i, j int) bool { return items[i].seq < items[j].seq })
-
-	// per session life-cycle
+// checkLifecycle: per session, Setup once, claims between Setup and Cleanup, at most one claim per partition,
+// Cleanup once after every claim returned, Consume returns after Cleanup.
+func checkLifecycle(events []HEvent, add func(sig, format string, a ...interface{})) {
 	bySession := map[int][]HEvent{}
-	for _, e := range res.Events {
+	for _, e := range events {
 		bySession[e.Session] = append(bySession[e.Session], e)
 	}
 	for sNo, evs := range bySession {
@@ -482,6 +449,44 @@ func Check(res *Result) []Fail {
 			add("C07:return-before-cleanup", "session %d: Consume returned before Cleanup", sNo)
 		}
 	}
+}
+
+type Fail struct{ Sig, Detail string }
+
+// Check evaluates the C07 / C12 oracles.
+func Check(res *Result) []Fail {
+	var fails []Fail
+	add := func(sig, format string, a ...interface{}) { fails = append(fails, Fail{sig, fmt.Sprintf(format, a...)}) }
+	sc := res.Sc
+	if res.NewErr != "" {
+		return nil
+	}
+	if res.Hang != "" {
+		add("C12:group-hang", "%s", res.Hang)
+		return fails
+	}
+	if res.Panic != "" {
+		add("C12:group-panic", "%s", res.Panic)
+	}
+	if len(res.LifePanic) > 0 {
+		add("C12:group-goroutine-panic", "recovered in one of sarama's goroutines: %s", strings.Join(res.LifePanic, " | "))
+	}
+	// merge handler events and coordinator requests into one sequence
+	type item struct {
+		seq int
+		ev  *HEvent
+		rq  *sarama.VerifSimGroupReq
+	}
+	var items []item
+	for i := range res.Events {
+		items = append(items, item{seq: res.Events[i].Seq, ev: &res.Events[i]})
+	}
+	for i := range res.Reqs {
+		items = append(items, item{seq: res.Reqs[i].Seq, rq: &res.Reqs[i]})
+	}
+	sort.Slice(items, func(i, j int) bool { return items[i].seq < items[j].seq })
+
+	checkLifecycle(res.Events, add)
 	// identity carried; fresh identity after fencing; claims within assignment; claim start offset; final commit after cleanup
 	curMember, curGen := "", int32(-1)
 	fenced := false
